@@ -254,7 +254,7 @@ pub (crate) fn bid128_from_string(str: &str, rnd_mode: RoundingMode, pfpsf: &mut
         res.w[1] = if range.eq_ignore_ascii_case("inf") || range.eq_ignore_ascii_case("infinity") {
             // Infinity
             0x7800000000000000u64
-        } else if range.len() >= 4 && range[0..4].eq_ignore_ascii_case("snan") { // return sNaN
+        } else if range.get(0..4).is_some_and(|r| r.eq_ignore_ascii_case("snan")) { // return sNaN
             // case-insensitive check for snan
             0x7e00000000000000u64
         } else { // return qNaN
@@ -278,7 +278,7 @@ pub (crate) fn bid128_from_string(str: &str, rnd_mode: RoundingMode, pfpsf: &mut
         return res;
     }
     // if +sNaN, +SNaN, -sNaN, or -SNaN
-    if range.len() >= 4 && range[0..4].eq_ignore_ascii_case("snan") {
+    if range.get(0..4).is_some_and(|r| r.eq_ignore_ascii_case("snan")) {
         res.w[0] = 0;
         res.w[1] = if c == Some('-') {
             0xfe00000000000000u64
